@@ -419,6 +419,43 @@ func init() {
 }
 
 func init() {
+	// VerifyLeader while a voter addition is in flight: the leader acts on {L,F1,F2,N} (uncommitted) while the
+	// committed configuration is {L,F1,F2}; it reaches N only. L+N are two of four voters, not a majority.
+	regScenario("verify-addvoter", func() *Scenario {
+		ns := append(voters(3), NodeSpec{Suffrage: raft.Nonvoter, StartUp: true})
+		return &Scenario{Nodes: ns, Devs: DevAllNet | DevStepEarly | DevTimer, Horizon: 700,
+			Goal: func(w *World) bool { return w.scriptDone() && w.vals["vc"] > 0 && w.calls[w.vals["vc"]].Done },
+			Steps: []Step{
+				stepApplyLeader("apply1"),
+				stepDo("add-nonvoter", whenSettled, func(w *World) { w.addNonvoter(w.leader(), 3, 0) }),
+				stepDo("cut-followers+promote", whenSettled, func(w *World) {
+					l := w.leader()
+					w.vals["L"] = l.id
+					for _, o := range w.nodes[:3] {
+						if o.id != l.id {
+							w.cut(l.id, o.id, true)
+							w.cut(3, o.id, true)
+						}
+					}
+					w.addVoter(l, 3, 0)
+				}),
+				stepDo("verify", func(w *World) bool {
+					l := w.nodes[w.vals["L"]]
+					if l.r == nil || l.r.State() != raft.Leader || !w.netIdle() {
+						return false
+					}
+					for _, sv := range l.r.VerifDump().Latest.Servers {
+						if sv.ID == w.nodes[3].sid && sv.Suffrage == raft.Voter {
+							return w.nodes[3].r != nil && w.nodes[3].r.LastIndex() == l.r.LastIndex()
+						}
+					}
+					return false
+				}, func(w *World) { w.vals["vc"] = w.verify(w.nodes[w.vals["L"]]).ID }),
+			}}
+	})
+}
+
+func init() {
 	// five voters: the leader keeps one follower, the other three are cut off; one reachable voter is not a majority
 	regScenario("verify5-pair", func() *Scenario {
 		return &Scenario{Nodes: voters(5), Devs: DevAllNet | DevStepEarly | DevTimer, Horizon: 600,
